@@ -257,8 +257,45 @@ func (g *c11Gen) gen() *c11Case {
 	} else {
 		c.Prior = vg.cfg(T)
 	}
+	// one case in 25: a slice that an earlier call has already grown to 500..1000 elements, and a live point
+	// at, just below or just above the limit of 1000 (the growth of a slice that is large already)
+	var grow *c10Field
+	if r.Intn(25) == 0 {
+		var sl []int
+		for i := range T.fields {
+			if T.fields[i].kind == 2 {
+				sl = append(sl, i)
+			}
+		}
+		if len(sl) > 0 {
+			i := sl[r.Intn(len(sl))]
+			vg.noBig = true
+			c.Prior = vg.cfg(T)
+			L := []int{500, 501, 600, 998, 999, 1000}[r.Intn(6)]
+			fv := c10FV{Kind: 2}
+			for k := 0; k < L; k++ {
+				fv.L = append(fv.L, vg.prim(T.fields[i].prim))
+			}
+			c.Prior.Vals[i] = fv
+			grow = &T.fields[i]
+		}
+	}
 	c.Op = []int{0, 0, 0, 1, 1, 2}[r.Intn(6)]
+	if grow != nil {
+		c.Op = map[bool]int{false: 1, true: 2}[grow.edge] // MergePoints / MergeEdgePoints into the prior
+	}
 	n := &c10Node{ID: c.Prior.ID, Parent: c.Prior.Parent}
+	if grow != nil {
+		p := c10Pt{Type: []byte(grow.typ), Key: []byte([]string{"998", "999", "1000", "1000", "1001"}[r.Intn(5)]), Bits: math.Float64bits(float64(r.Intn(50))), Text: []byte("g")}
+		if grow.edge {
+			n.E = append(n.E, p)
+		} else {
+			n.P = append(n.P, p)
+		}
+		c.Corr = append(c.Corr, "grow-at-limit")
+		c.Node = n
+		return c
+	}
 	switch r.Intn(10) {
 	case 0:
 		n.ID = []byte("other")
